@@ -436,6 +436,26 @@ Definition step_node (st : step) (s : node) : node :=
 Definition run (durable : bool) (sched : list step) : node :=
   fold_left (fun s st => step_node st s) sched (newSlot true (init_node durable)).
 
+(* ---- a cluster: several replicas, each stepping on its own ------------------------------------------------ *)
+
+Fixpoint upd {A} (l : list A) (i : nat) (x : A) : list A :=
+  match l, i with
+  | [], _ => []
+  | _ :: r, O => x :: r
+  | y :: r, S k => y :: upd r k x
+  end.
+
+Definition cstep_apply (ns : list node) (cs : nat * step) : list node :=
+  match nth_error ns (fst cs) with
+  | Some n => upd ns (fst cs) (step_node (snd cs) n)
+  | None => ns
+  end.
+
+Definition cluster_init (durable : bool) (k : nat) : list node := repeat (newSlot true (init_node durable)) k.
+
+Definition crun (durable : bool) (k : nat) (sched : list (nat * step)) : list node :=
+  fold_left cstep_apply sched (cluster_init durable k).
+
 (* ==================================================================================================
    The case protocol
    ================================================================================================== *)
@@ -725,3 +745,16 @@ Definition C12_monitor (c : c12_case) : N :=
     | [] => 0
     | _ => if forallb (fut_forwarded c) bad then 2 else 1
     end.
+
+(* ---- the case a cluster of the model produces (for c12_model_satisfies_monitor) ------------------------------ *)
+
+Definition obs_of (n : node) : node_obs :=
+  mkNode (n_tr n) (sm_idx n) (map (fun e => (e_idx e, e_cmd e)) (sm_hist n)).
+
+Fixpoint futs_from (i : nat) (ns : list node) : list fut_obs :=
+  match ns with
+  | [] => []
+  | n :: r => map (fun p => mkFut (fst p) (N.of_nat (S i)) (snd p)) (n_futs n) ++ futs_from (S i) r
+  end.
+
+Definition case_of (ns : list node) : c12_case := mkC12 true (map obs_of ns) (futs_from 0 ns).
